@@ -367,7 +367,7 @@ def bystander_history(rng, t, d=None, n=None):
         d = in_dim(t, 2)
     h = getattr(t, "h_matrix", None)
     homog = h is not None and h.shape == (d + 1, d + 1)
-    menu = ([0, 1, 2] if homog else []) + ([3, 3] if hasattr(t, "pseudoinverse") else []) + [4, 5] + ([6] if hasattr(t, "as_vector") else [])
+    menu = ([0, 1, 2] if homog else []) + ([3, 3] if hasattr(t, "pseudoinverse") else []) + [4, 5] + ([6] if hasattr(t, "as_vector") else []) + ([7, 7] if isinstance(t, mt.TransformChain) else [])
     for _ in range(int(rng.integers(1, 4)) if n is None else n):
         k = int(menu[rng.integers(0, len(menu))])
         try:
@@ -387,6 +387,10 @@ def bystander_history(rng, t, d=None, n=None):
                 t.copy(); done.append("copy")
             elif k == 5:
                 safe_apply(t, probe(rng, d, n=5)); done.append("apply")
+            elif k == 7:
+                # a longer chain derived from this one, out of place
+                other = mt.Translation(rng.uniform(-6, 6, d)) if rng.random() < 0.6 else mt.TransformChain([mt.UniformScale(float(rng.uniform(0.5, 2.0)), d)])
+                (t.compose_before if rng.random() < 0.5 else t.compose_after)(other); done.append("chain_derived")
             elif hasattr(t, "as_vector"):
                 t.as_vector(); done.append("as_vector")
         except Exception:
